@@ -184,6 +184,7 @@ void prop_gen(Ctx &c) {
 		return cs; });
 	auto genCase = rc::gen::mapcat(R(0, 3), [=](int sel) -> rc::Gen<Case> { return sel == 0 ? genInstCase : genDurCase; });
 	rc::check("C18 sampled", [&]() {
+		if (c.shrink_exhausted()) return;
 		Case cs = *genCase;
 		std::string txt = ctext(cs);
 		Verdict v = judge_sandboxed(cs);
